@@ -31,7 +31,8 @@ REGISTRY = {
             "assocSet_get_same", "assocSet_get_other", "set_tx_meta_effect", "set_account_meta_effect"],
     "C10": ["store_independent", "world_never_requested", "batchQuery_no_world", "cache_never_forgets",
             "cacheMerge_faithful"],
-    "C11": ["flag_only_gates_overdraft", "overdraft_gated", "store_independent", "interpreter_keeps_no_state"],
+    "C11": ["flag_only_gates_overdraft", "overdraft_gated", "store_independent", "interpreter_keeps_no_state",
+            "run_depends_only_on_declared_vars", "run_ignores_undeclared_var", "run_vars_order_irrelevant"],
     "C12": ["api_failure_is_atomic", "api_is_RunProgram", "apiRun_no_flag", "api_never_panics", "text_run_never_panics", "run_never_panics", "evalExpr_never_panics", "getBalance_store_failure", "run_preload_failure",
             "meta_store_failure", "runBalancesQuery_no_call"],
     "C13": ["digitsVal_eq_posValue", "digitsVal_append_digit", "ratio_literal_exact", "percent_literal_exact",
